@@ -184,6 +184,14 @@ def gen_case(cseed: int, tier: str) -> dict[str, Any]:
     if low_first is not None:
         k = w.randrange(0, len(recs) + 1)
         recs = recs[:k] + [low_first] + recs[k:]
+        if delta < 0 and w.random() < 0.5:
+            # a record that starts inside the stripped header: it lands (partly) below address 0.  Nothing is
+            # stated about that record; the records after it must still land where they belong
+            below = w.choice([1, 2, 0x10, 0x1F0])
+            offn = -delta - below
+            if offn >= 0:
+                nrec = (offn, "plain", w.choice([below, below + 4, 3]), w.getrandbits(32))
+                recs = [nrec] + recs
     elif edge is None and w.random() < 0.1:
         # a record that ends exactly at the top of the 24-bit image (last byte at 0xFFFFFF), or one byte
         # below it: a perfectly valid place for a record to land
@@ -196,7 +204,7 @@ def gen_case(cseed: int, tier: str) -> dict[str, Any]:
             recs = recs[:k] + [top_rec] + recs[k:]
     slots = [s for s in progen.iter_slots(prog) if s["assembled"] and not (s["file"] == "main.s" and not s["path"] and s["pos"] == 0)]
     slot = w.choice(slots)
-    dform = w.choice(["lit", "lit", "const", "const_reassigned", "const_signed", "macro_arg", "macro_arg", "define"])
+    dform = w.choice(["lit", "lit", "const", "const_reassigned", "const_signed", "macro_arg", "macro_arg", "define", "expr"])
     return {
         "type": "base",
         "seed": cseed,
@@ -249,6 +257,33 @@ def host_with_directive(case: dict[str, Any]) -> progen.Prog:
                 prog.root.append({"k": "apply", "t": f"inc_zq({sd:#x})" if sd >= 0 else f"inc_zq(-{-sd:#x})", "under_test": True})
             else:
                 prog.root.append({"k": "include_ips", "t": f".include_ips '{path0}', {sd:#x}", "under_test": True})
+        return prog
+    if case.get("delta_form") == "expr":
+        # the delta written as an unparenthesised expression (left-to-right, usual precedence)
+        path0 = case.get("patch_path") or "p.ips"
+        er = random.Random(case["seed"] ^ 0xE9)
+        b, c = er.randrange(1, 0x4000), er.randrange(1, 0x4000)
+        forms = []
+        a = delta + b - c
+        if a >= 0:
+            forms.append(f"{a:#x} - {b:#x} + {c:#x}")
+        a2 = c - delta
+        if a2 >= 0:
+            forms.append(f"-{a2:#x} + {c:#x}")
+        a3 = delta - b * 2
+        if a3 >= 0:
+            forms.append(f"{a3:#x} + {b:#x} * 2")
+            forms.append(f"{b:#x} * 2 + {a3:#x}")
+        if delta >= 0 and delta % 4 == 0:
+            forms.append(f"{delta * 2:#x} >> 3 << 2")
+        a4 = delta + b
+        if a4 >= 0:
+            forms.append(f"{a4:#x} - {b:#x}")
+        if not forms:
+            forms.append(f"{delta:#x}" if delta >= 0 else f"-{-delta:#x}")
+        prog = progen.insert_at(prog, case["slot"], {"k": "include_ips", "t": f".include_ips '{path0}', {er.choice(forms)}", "under_test": True})
+        if case.get("second_delta") is not None:
+            prog.root.append({"k": "include_ips", "t": f".include_ips '{path0}', {case['second_delta']:#x}", "under_test": True})
         return prog
     if case.get("delta_form") == "define":
         # the delta is a name the caller defines (-D DELTA_zq=... on the command line, add_symbol in the API)
@@ -455,12 +490,18 @@ def run_single(case: dict[str, Any], stats: Stats) -> list[Violation]:
         stats.bump("no_verdict(step budget exceeded: termination is C15's subject)")
         return out
 
+    TOP = 1 << 24
+
     def expected_image(records: list[ipsref.Record]) -> ipsref.Image | None:
+        """host output + every record at offset+delta; a record that lands (partly) outside the image is
+        left out here, and so are such blocks of the observed output: nothing is stated about them."""
         img = ipsref.image_of_blocks(base_twin["blocks"])
         host_img = ipsref.image_of_blocks(base_twin["blocks"])
         for rec in records:
             data = ipsref.record_bytes(rec)
             t = rec[0] + delta
+            if t < 0 or t + len(data) > TOP:
+                continue
             # overlap with the host's own output -> order-dependent, no verdict (exact test: a sampled one
             # let a 65281-byte run through that covered five host bytes - false alarm under VERIF_SEED=1)
             if host_img.any_written(t, len(data)):
@@ -468,8 +509,14 @@ def run_single(case: dict[str, Any], stats: Stats) -> list[Violation]:
             img.write(t, data)
         if case.get("second_delta") is not None:
             for rec in records:
-                img.write(rec[0] + case["second_delta"], ipsref.record_bytes(rec))
+                t2 = rec[0] + case["second_delta"]
+                if t2 < 0 or t2 + len(ipsref.record_bytes(rec)) > TOP:
+                    continue
+                img.write(t2, ipsref.record_bytes(rec))
         return img
+
+    def observed_image(blocks: list[tuple[int, bytes]]) -> ipsref.Image:
+        return ipsref.image_of_blocks([(a, d) for a, d in blocks if a >= 0 and a + len(d) <= TOP])
 
     # "PATCH, records, EOF": a file that ends at a record boundary without the EOF marker is not a
     # well-formed IPS patch either (only bytes *after* EOF are left without an accept/reject verdict)
@@ -484,11 +531,14 @@ def run_single(case: dict[str, Any], stats: Stats) -> list[Violation]:
         records = ipsref.parse(stored)
         hdr = 0x200 if front == "copier" else 0  # through the copier front end the records move up by the header
         all_deltas = [delta] + ([case["second_delta"]] if case.get("second_delta") is not None else [])
-        if any(r[0] + d < 0 or r[0] + d + hdr + len(ipsref.record_bytes(r)) > (1 << 24) for r in records for d in all_deltas):
-            # outside the image (can only come from a minimiser step or a generator slip): the statement says
-            # nothing about such a record, and a front end may rightly refuse to write it
+        outside = any(r[0] + d < 0 or r[0] + d + hdr + len(ipsref.record_bytes(r)) > (1 << 24) for r in records for d in all_deltas)
+        if outside and (front or not o["ok"]):
+            # a record outside the image: the statement says nothing about it, and a front end may rightly
+            # refuse to write it.  (Through the in-memory API the other records are still judged below.)
             stats.bump("no_verdict(record lands outside the 24-bit image)")
             return out
+        if outside:
+            stats.bump("probe:record_outside_image_others_judged")
         want = expected_image(records)
         if want is None:
             stats.bump("no_verdict(damaged offsets overlap host output)")
@@ -497,7 +547,7 @@ def run_single(case: dict[str, Any], stats: Stats) -> list[Violation]:
             sig = (o.get("exc") or {}).get("type") or "error_returned"
             out.append(Violation("well_formed_patch_rejected", sig, f"well-formed patch ({len(records)} records, {len(stored)} bytes, buffer size {bs}) but the assembly failed: {o.get('exc') or o.get('ret')}", case, detail))
             return out
-        got = ipsref.image_of_blocks(o["blocks"])
+        got = observed_image(o["blocks"])
         if got != want:
             sig = "rle" if any(r[1] == "rle" for r in records) else "plain"
             out.append(Violation("included_patch_effect_differs", sig, f"output image (first) differs from host output + records at offset+delta (second): {'; '.join(got.diff(want))}", case, detail))
@@ -515,8 +565,8 @@ def run_single(case: dict[str, Any], stats: Stats) -> list[Violation]:
         except ipsref.IpsFormatError:
             return out
         want = expected_image(records)
-        if want is not None and ipsref.image_of_blocks(o["blocks"]) != want:
-            out.append(Violation("accepted_patch_effect_differs", klass, f"file with {klass} was accepted but its effect differs from the records present: {'; '.join(ipsref.image_of_blocks(o['blocks']).diff(want))}", case, detail))
+        if want is not None and observed_image(o["blocks"]) != want:
+            out.append(Violation("accepted_patch_effect_differs", klass, f"file with {klass} was accepted but its effect differs from the records present: {'; '.join(observed_image(o['blocks']).diff(want))}", case, detail))
     return out
 
 
@@ -527,6 +577,8 @@ def knobs_for(rng: random.Random) -> dict[str, Any]:
         k["short_rate"] = rng.choice([0.2, 0.5, 0.9])
         if rng.random() < 0.4:
             k["pipe_like"] = ["ips_in"]  # the patch comes through something that delivers it in pieces (FIFO, pipe)
+    if rng.random() < 0.25:
+        k["warnings"] = "error"  # python -W error: a warning raised while reading the patch aborts the assembly
     return k
 
 
